@@ -8,6 +8,7 @@ package harness
 // verifier's own equations.
 
 import (
+	"bytes"
 	"crypto/cipher"
 	"fmt"
 	"math/big"
@@ -341,10 +342,34 @@ func c15Others(t *rapid.T, ev *evProp) {
 		}
 		ctx := fmt.Sprintf("SequencesShuffle %s NQ=%d", e.desc, nq)
 		xb, yb, getProver := shuffle.SequencesShuffle(g, e.G, e.H, X, Y, xofStream(genSeed(t, "srand")))
+		// the verifier's weights: uniform, or from the edge classes (0, 1, q-1, ...) - Remark 7 style
+		// shortcuts for a weight of 1 or 0 must not change anything observable
 		es := make([]kyber.Scalar, nq)
+		wmode := rapid.SampledFrom([]string{"uniform", "uniform", "edge", "first-one", "last-one", "all-one", "first-zero"}).Draw(t, "weights")
 		for j := range es {
-			es[j] = g.Scalar().Pick(st)
+			switch {
+			case wmode == "edge":
+				es[j] = genScalar(t, e.gi, fmt.Sprintf("e%d", j)).S
+			case wmode == "all-one", wmode == "first-one" && j == 0, wmode == "last-one" && j == nq-1:
+				es[j] = g.Scalar().One()
+			case wmode == "first-zero" && j == 0:
+				es[j] = g.Scalar().Zero()
+			default:
+				es[j] = g.Scalar().Pick(st)
+			}
 		}
+		snapSeq := func() []byte {
+			var b []byte
+			for _, m := range [][][]kyber.Point{X, Y, xb, yb} {
+				for _, row := range m {
+					for _, p := range row {
+						b = append(b, mustMarshal(t, p)...)
+					}
+				}
+			}
+			return b
+		}
+		before := snapSeq()
 		prover, err := getProver(es)
 		if err != nil {
 			violationOrKnown(t, ev, "C15/sequences/prove", "getProver failed: %v\n%s", err, ctx)
@@ -357,7 +382,10 @@ func c15Others(t *rapid.T, ev *evProp) {
 		}
 		xu, yu, xd, yd := shuffle.GetSequenceVerifiable(g, X, Y, xb, yb, es)
 		if err, pn := pairVerify(e, e.G, e.H, xu, yu, xd, yd, prf); err != nil || pn != "" {
-			violationOrKnown(t, ev, "C15/sequences/complete", "honest sequence shuffle rejected: %v %s\n%s", err, pn, ctx)
+			violationOrKnown(t, ev, "C15/sequences/complete", "honest sequence shuffle rejected: %v %s (weights %v)\n%s", err, pn, es, ctx)
+		}
+		if !bytes.Equal(before, snapSeq()) {
+			violationOrKnown(t, ev, "C15/sequences/inputs-modified", "proving / consolidating changed the caller's input or output sequences (weights %v)\n%s", es, ctx)
 		}
 		// several verifiers, each with its own challenge vector, ask for a proof of the SAME shuffle (and
 		// the same prover may be run again): every one of these honest proofs verifies
